@@ -17,6 +17,7 @@ pub use ide::symbol_map::{
     SymbolMap,
 };
 pub use ide::handlers::diagnostics::Diagnostic;
+pub use vstd::std_specs::convert::*;
 verus!{
 // ---------- external types (real crates) ----------
 #[verifier::external_type_specification] #[verifier::external_body] pub struct ExEcoString(EcoString);
@@ -26,7 +27,7 @@ verus!{
 #[verifier::external_type_specification] #[verifier::external_body] pub struct ExRecord(Record);
 #[verifier::external_type_specification] #[verifier::external_body] pub struct ExMulticlass(Multiclass);
 #[verifier::external_type_specification] #[verifier::external_body] pub struct ExDefm(Defm);
-#[verifier::external_type_specification] #[verifier::external_body] pub struct ExTemplateArgument(TemplateArgument);
+#[verifier::external_type_specification] pub struct ExTemplateArgument(TemplateArgument);
 #[verifier::external_type_specification] pub struct ExType(Type);
 #[verifier::external_type_specification] pub struct ExRecordKind(RecordKind);
 #[verifier::external_type_specification] pub struct ExFileId(FileId);
@@ -109,6 +110,45 @@ pub assume_specification<T> [<id_arena::Id<T> as core::cmp::PartialEq>::eq] (a: 
 /// A-hash: FileId (a u32 newtype with derived Eq/Hash) obeys vstd's key model
 pub broadcast axiom fn ax_fileid_key_model() ensures #[trigger] vstd::std_specs::hash::obeys_key_model::<FileId>();
 pub use vstd::std_specs::hash::*;
+// ---------------------------------------------------------------- name lookup (C05): ASSUMED functional contracts of the symbol map
+pub use ide::symbol_map::symbol::SymbolId;
+pub use ide::symbol_map::{record_field::RecordFieldId, template_arg::TemplateArgumentId, defset::DefsetId, defm::DefmId};
+#[verifier::external_type_specification] pub struct ExSymbolId(SymbolId);
+/// the record an id denotes / what the lookups of the symbol map return (uninterpreted: they are functions of the map)
+pub uninterp spec fn sp_record(sm: &SymbolMap, id: RecordId) -> Record;
+pub uninterp spec fn sp_multiclass(sm: &SymbolMap, id: MulticlassId) -> Multiclass;
+pub uninterp spec fn sp_field(r: &Record, sm: &SymbolMap, name: EcoString) -> Option<RecordFieldId>;
+pub uninterp spec fn sp_rec_targ(r: &Record, name: EcoString) -> Option<TemplateArgumentId>;
+pub uninterp spec fn sp_mc_targ(m: &Multiclass, name: EcoString) -> Option<TemplateArgumentId>;
+pub uninterp spec fn sp_def(sm: &SymbolMap, name: EcoString) -> Option<RecordId>;
+pub assume_specification [SymbolMap::record] (sm: &SymbolMap, id: RecordId) -> (r: &Record) ensures *r == sp_record(sm, id);
+pub assume_specification [SymbolMap::multiclass] (sm: &SymbolMap, id: MulticlassId) -> (r: &Multiclass) ensures *r == sp_multiclass(sm, id);
+/// own and inherited fields (Record::find_field walks the parent classes)
+pub assume_specification [Record::find_field] (r: &Record, sm: &SymbolMap, name: &EcoString) -> (f: Option<RecordFieldId>) ensures f == sp_field(r, sm, *name);
+pub assume_specification [Record::find_template_arg] (r: &Record, name: &EcoString) -> (f: Option<TemplateArgumentId>) ensures f == sp_rec_targ(r, *name);
+pub assume_specification [Multiclass::find_template_arg] (m: &Multiclass, name: &EcoString) -> (f: Option<TemplateArgumentId>) ensures f == sp_mc_targ(m, *name);
+pub assume_specification [SymbolMap::find_def] (sm: &SymbolMap, name: &EcoString) -> (f: Option<RecordId>) ensures f == sp_def(sm, *name);
+/// the `From<..Id> for SymbolId` impls wrap the id in the variant of the same name (symbol_map/symbol.rs)
+pub axiom fn ax_into_sym()
+    ensures <VariableId as IntoSpec<SymbolId>>::obeys_into_spec(), forall|id: VariableId| #[trigger] <VariableId as IntoSpec<SymbolId>>::into_spec(id) == SymbolId::VariableId(id),
+            <RecordFieldId as IntoSpec<SymbolId>>::obeys_into_spec(), forall|id: RecordFieldId| #[trigger] <RecordFieldId as IntoSpec<SymbolId>>::into_spec(id) == SymbolId::RecordFieldId(id),
+            <TemplateArgumentId as IntoSpec<SymbolId>>::obeys_into_spec(), forall|id: TemplateArgumentId| #[trigger] <TemplateArgumentId as IntoSpec<SymbolId>>::into_spec(id) == SymbolId::TemplateArgumentId(id),
+            <RecordId as IntoSpec<SymbolId>>::obeys_into_spec(), forall|id: RecordId| #[trigger] <RecordId as IntoSpec<SymbolId>>::into_spec(id) == SymbolId::RecordId(id);
+/// model of `slice.iter().rev()`: items yielded so far / the slice it walks backwards
+pub uninterp spec fn rev_pos<I>(e: &core::iter::Rev<I>) -> nat;
+pub uninterp spec fn rev_items<I: Iterator>(e: &core::iter::Rev<I>) -> Seq<<I as Iterator>::Item>;
+pub assume_specification<I: DoubleEndedIterator> [<core::iter::Rev<I> as Iterator>::next] (e: &mut core::iter::Rev<I>) -> (r: Option<<I as Iterator>::Item>)
+    ensures rev_items(final(e)) == rev_items(old(e)),
+        match r { Some(x) => rev_pos(old(e)) < rev_items(old(e)).len() && x == rev_items(old(e))[rev_items(old(e)).len() - 1 - rev_pos(old(e))] && rev_pos(final(e)) == rev_pos(old(e)) + 1,
+                  None => rev_pos(old(e)) >= rev_items(old(e)).len() && rev_pos(final(e)) == rev_pos(old(e)) };
+/// model of `vec.into_iter().enumerate()`: position of the next item / number of items (core::iter::Enumerate counts from 0)
+#[verifier::external_type_specification] #[verifier::external_body] #[verifier::reject_recursive_types(I)] pub struct ExEnumerate<I>(core::iter::Enumerate<I>);
+pub uninterp spec fn enum_pos<I>(e: &core::iter::Enumerate<I>) -> nat;
+pub uninterp spec fn enum_total<I>(e: &core::iter::Enumerate<I>) -> nat;
+pub assume_specification<I: Iterator> [<core::iter::Enumerate<I> as Iterator>::next] (e: &mut core::iter::Enumerate<I>) -> (r: Option<(usize, <I as Iterator>::Item)>)
+    ensures enum_total(final(e)) == enum_total(old(e)),
+        match r { Some((i, _)) => i == enum_pos(old(e)) && enum_pos(old(e)) < enum_total(old(e)) && enum_pos(final(e)) == enum_pos(old(e)) + 1,
+                  None => enum_pos(old(e)) >= enum_total(old(e)) && enum_pos(final(e)) == enum_pos(old(e)) };
 /// stands for format!(..) / eco_format!(..) (R5): formatting machinery is outside Verus
 #[verifier::external_body] pub fn opaque_string() -> (r: String) { unimplemented!() }
 #[verifier::external_body] pub fn opaque_eco_string() -> (r: EcoString) { unimplemented!() }
